@@ -335,7 +335,9 @@ func CompileWarrior(r io.Reader, config SimulatorConfig) (WarriorData, error) {
 			break
 		}
 		depth++
-		if depth > 12 {
+		// every pass expands a single for block, so the number of passes needed
+		// is the number of blocks after expansion, not the nesting depth
+		if depth > 1000 {
 			return WarriorData{}, fmt.Errorf("for loop depth exceeded")
 		}
 	}
